@@ -712,6 +712,13 @@ def build_cache(case):
                 vals = [block([None if v is None else (Fr(v[0]), Fr(v[1])) for v in s[1]], idx, dtype, 3 + int(pn))
                         for s in samples]
             cache['%s_product_%s%s' % (sname, case['ptype'], pn if case['n_parts'] else '')] = raw_sensor(ts, vals)
+    if case.get('decoy'):
+        # a sensor under the OTHER naming: unsuffixed although the stream has product_<type>_parts, or suffixed 0
+        # although it has not - it must not be read
+        dts = [s[0] for s in case['decoy']]
+        dvals = [block([None if v is None else (Fr(v[0]), Fr(v[1])) for v in s[1]], idx, dtype, 7) for s in case['decoy']]
+        for sname in case['substreams']:
+            cache['%s_product_%s%s' % (sname, case['ptype'], '' if case['n_parts'] else '0')] = raw_sensor(dts, dvals)
     sc = SensorCache(cache, timestamps=np.arange(N, dtype=float), dump_period=1., props=SENSOR_PROPS, virtual={})
     nchan = case['cal_chans']
     attrs = dict(ATTRS0, center_freq=float(case['cal_centre']), bandwidth=float(nchan * case['cal_width']),
@@ -735,7 +742,22 @@ def check_stitch(ctx, case):
         return [[q(s[0]), [wire_opv(None if v is None else (Fr(v[0]), Fr(v[1]))) for v in s[1]]] for s in samples]
     # model: per part every substream's samples (or absent); the rule "a substream lacking the part makes the part
     # absent", the merge of the substreams and the stitching are all in the model (stitch_substreams)
-    if nparts:
+    decoy = [wire_samples(case['decoy'])] if case.get('decoy') else []
+    if len(subs) == 1 and (nparts or decoy):
+        # one substream: the model also decides WHICH sensors are read from the parts attribute (indirect_product)
+        if nparts:
+            w = [144, [2, [nparts], decoy, [[wire_samples(subs[0][str(pn)])] if str(pn) in subs[0] else []
+                                            for pn in range(nparts)]]]
+        else:
+            w = [144, [2, [], [wire_samples(subs[0]['0'])], [decoy]]]
+        mo = ctx.model([w])[0]
+        mo = None if not mo else mo[0]
+        if nparts:
+            m61 = ctx.model([[14, [61, [[[wire_samples(subs[0][str(pn)])] if str(pn) in subs[0] else []] for pn in range(nparts)]]]])[0]
+            if (None if not m61 else m61[0]) != mo:
+                ctx.disagree('kind=stitch;parts=multi;symptom=model_parts_attribute', case, None, mo,
+                             'indirect_product differs from stitch_substreams of the numbered parts', kind='tie')
+    elif nparts:
         parts = [[[wire_samples(sub[str(pn)])] if str(pn) in sub else [] for sub in subs] for pn in range(nparts)]
         mo = ctx.model([[14, [61, parts]]])[0]
         mo = None if not mo else mo[0]
@@ -769,7 +791,7 @@ def check_stitch(ctx, case):
     if bad:
         missing = [pn for pn in range(nparts or 0) if not any(str(pn) in sub for sub in subs)]
         sig = 'kind=stitch;parts=%s;missing=%s;substreams=%d;symptom=%s' % (
-            'multi' if nparts else 'single', 'last' if missing and missing[-1] == (nparts or 0) - 1 else
+            ('one' if nparts == 1 else 'multi' if nparts else 'single') + (';decoy_sensor' if case.get('decoy') else ''), 'last' if missing and missing[-1] == (nparts or 0) - 1 else
             'some' if missing else 'none', len(subs), bad)
         ctx.disagree(sig, case, None if got is None else [[str(t), show(v)] for t, v in got][:6],
                      None if mo is None else mo[:6],
@@ -780,6 +802,8 @@ def check_stitch(ctx, case):
     ctx.note_case(('S', repr(case)), nontrivial=nmiss >= 1 or len(subs) > 1, sample=case if case['N'] <= 4 else None)
     ctx.count('stitch:parts=%d' % (nparts or 0))
     ctx.count('stitch:substreams=%d' % len(subs))
+    if case.get('decoy'):
+        ctx.count('stitch:decoy_sensor:parts=%d' % (nparts or 0))
     return sc
 
 
@@ -812,7 +836,11 @@ def gen_stitch(rng):
             sub[str(pn)] = [[t, [None if v is None else [str(v[0]), str(v[1])] for v in vals[i * per:(i + 1) * per]]]
                             for i, t in enumerate(mine)]
         subs.append(sub)
-    return dict(kind='stitch', N=N, ptype=rng.choice(['B', 'G', 'GPHASE']) if not nparts else 'B',
+    decoy = None
+    if rng.random() < 0.4:
+        dv = gen_values(rng, nchan, True)
+        decoy = [[rng.randrange(N), [[str(v[0] * 7), str(v[1])] for v in dv]]]
+    return dict(kind='stitch', N=N, ptype=rng.choice(['B', 'G', 'GPHASE']) if not nparts else 'B', decoy=decoy,
                 n_parts=nparts, substreams=['cal'] if nsub == 1 else ['sc_a', 'sc_b'], data=subs,
                 cal_chans=nchan, cal_centre=rng.choice([100, 856]), cal_width=rng.choice([1, 2]),
                 data_freqs=[str(Fr(100 + k, 2)) for k in range(4)], dtype=np.dtype(dtype).name,
@@ -1016,7 +1044,9 @@ def request_form(req, streams):
 
 def normalise_cases(ctx):
     atoms = ['l1', 'l2', 'K', 'B', 'G', 'GPHASE', 'GAMP_PHASE', 'l1.K', 'l1.G', 'l2.GPHASE', 'l2.GAMP_PHASE',
-             'l3', 'l3.G', 'foo', 'l1.FOO', 'all', 'default', '', ' l1', 'G ', 'l1.', '.', 'g']
+             'l3', 'l3.G', 'foo', 'l1.FOO', 'all', 'default', '', ' l1', 'G ', 'l1.', '.', 'g',
+             # near misses: substrings / superstrings / other case of a stream or type must NOT match
+             'l', '1', 'l11', 'L1', 'GPH', 'PHASE', 'GAMP', 'KB', 'l1l2', 'l1G', 'a.b.G', 'l1..G', 'AMP_PHASE', 'GG', 'al', 'defaul']
     reqs = ['', 'all', 'default'] + atoms
     for a, b in itertools.product(atoms, atoms):
         reqs.append(a + ',' + b)
@@ -1037,7 +1067,9 @@ def normalise_cases(ctx):
     return out
 
 
-STREAM_SETS = [[], ['l1'], ['l2'], ['l1', 'l2']]
+# besides what a data set offers: a stream named like a product type (the stream test comes first), a stream whose name
+# contains another's, a dotted stream name
+STREAM_SETS = [[], ['l1'], ['l2'], ['l1', 'l2'], ['l1', 'G'], ['l11', 'l1'], ['a.b', 'l1']]
 
 
 # ------------------------------------------------------------------ (P) which products get APPLIED
@@ -2221,6 +2253,8 @@ def gen_placed(rng):
     samples = []
     for i, t in enumerate(times):
         row = [None if rng.random() < 0.15 else [str(cols[c][i][0] * (1 + Fr(i, 16))), str(cols[c][i][1])] for c in range(per)]
+        if samples and rng.random() < 0.15:
+            row = list(samples[-1][1])          # a solution that REPEATS the previous one is a solution in its own right
         samples.append([str(t), row])
     return dict(kind='placed', ptype=ptype, a=a, N=N, chans=chans, samples=samples, dtype='complex64',
                 index=[rng.randint(0, 1), rng.randint(0, 1)], per_dump=[t % 3 for t in gen_targets(rng, N)])
@@ -2302,13 +2336,46 @@ def gen_presel(rng):
                 request=rng.choice(['l1.G', 'G', 'default', '']), explicit=rng.random() < 0.5)
 
 
+
+def check_parse(ctx, names):
+    """applycal._parse_cal_product on every given string against the model (split at the LAST dot; no dot: ValueError)"""
+    from katdal.applycal import _parse_cal_product
+    outs = ctx.model([[144, [3, codes(n)]] for n in names]) if ctx.model_ok else [None] * len(names)
+    for n, mo in zip(names, outs):
+        want = tuple(n.rsplit('.', 1)) if '.' in n else None
+        try:
+            got = tuple(_parse_cal_product(n))
+        except ValueError:
+            got = None
+        shape = 'no_dot' if '.' not in n else 'one_dot' if n.count('.') == 1 else 'several_dots'
+        case = dict(kind='parse', names=[n])
+        if got != want:
+            ctx.disagree('kind=parse;name=%s;symptom=%s' % (shape, 'error' if (got is None) != (want is None) else 'halves'),
+                         case, got, None, '<stream>.<type> is not split at its last dot', spec=want)
+        if mo is not None:
+            m = None if not mo else tuple(''.join(chr(c) for c in x) for x in mo)
+            if m != want:
+                ctx.disagree('kind=parse;name=%s;symptom=model' % shape, case, got, m, 'model of _parse_cal_product', spec=want,
+                             kind='tie')
+        ctx.traces_validated += 1
+        ctx.note_case(('PP', n), nontrivial=n.count('.') >= 1, sample=None)
+        ctx.count('parse:' + shape)
+
+
+def parse_names():
+    out = ['l1.G', 'l2.GPHASE', 'l1', 'cal.x.G', 'l1..G', '.G', 'l1.', '.', '..', 'sdp.cal.l1.GAMP_PHASE', '']
+    for n in range(0, 5):
+        out += [''.join(t) for t in itertools.product('.aG', repeat=n)]
+    return sorted(set(out))
+
+
 # ------------------------------------------------------------------ driver
 
 CHECKS = {'unwrap': lambda ctx, c: check_unwrap(ctx, [Fr(p) for p in c['phases']]), 'cinterp': check_cinterp,
           'delay': check_delay, 'bandpass': check_bandpass, 'gain': check_gain, 'flux': check_flux,
           'stitch': check_stitch, 'e2e': check_end_to_end, 'select': check_select, 'products': check_products,
           'opened': check_opened, 'two_sets': check_two_sets, 'delivered': check_delivered,
-          'placed': check_placed, 'presel': check_presel,
+          'placed': check_placed, 'presel': check_presel, 'parse': lambda ctx, c: check_parse(ctx, c['names']),
           'normalise': lambda ctx, c: check_normalise(ctx, c['request'] if isinstance(c['request'], str)
                                                       else list(c['request']), c['streams'])}
 
@@ -2367,6 +2434,7 @@ def run(ctx):
         for (req, streams), mo in zip(todo, outs):
             check_normalise(ctx, req, streams, mo if mo else [])
     timed('normalise', normalise_all)
+    timed('parse', lambda: check_parse(ctx, parse_names()))
     ctx.extra['stage_seconds'] = stage
     ctx.extra['normalise_exhaustive_over'] = 'streams in {[], [l1], [l2], [l1,l2]} x %d request forms' % len(
         normalise_cases(ctx))
